@@ -139,6 +139,43 @@ def rotateSplit (maxSize : Nat) : List Entry → Nat → List Entry → List (Li
 def filesOf (maxSize : Nat) (es : List Entry) : List Bytes :=
   (rotateSplit maxSize [] fileHeaderSize es).map fileOf
 
+/-! ### rotation with file NAMES
+
+`rotate` names the new file `arc-<time.Now() formatted at some resolution>.wal` and opens it with
+`O_WRONLY|O_CREATE|O_APPEND`: if two rotations produce the same name, the second one re-opens the
+existing file and appends a second 7-byte header in the middle of it (and `currentSize` restarts
+at 7). Instants are unix nanoseconds; `resNs` is the resolution of the name's time layout
+(regenerated: `Arc.Generated.C06.fileNameResolutionNs`). -/
+
+def nameKey (resNs t : Nat) : Nat := t / resNs
+
+/-- a write through an `O_APPEND|O_CREATE` handle of the file named `k` -/
+def dirAppend (dir : List (Nat × Bytes)) (k : Nat) (bs : Bytes) : List (Nat × Bytes) :=
+  if dir.any (fun p => p.1 == k) then dir.map (fun p => if p.1 == k then (p.1, p.2 ++ bs) else p)
+  else dir ++ [(k, bs)]
+
+structure WState where
+  dir : List (Nat × Bytes)     -- (name key, content) in order of first creation
+  cur : Nat                    -- name key of the current file
+  size : Nat                   -- `currentSize`
+deriving Repr
+
+def wRotate (resNs : Nat) (s : WState) (t : Nat) : WState :=
+  { dir := dirAppend s.dir (nameKey resNs t) fileHeader, cur := nameKey resNs t, size := fileHeaderSize }
+
+/-- `writeEntry` at instant `t`: write, then rotate if the size limit is reached -/
+def wAppend (resNs maxSize : Nat) (s : WState) (te : Nat × Entry) : WState :=
+  if s.size + encLen te.2 ≥ maxSize then
+    wRotate resNs { s with dir := dirAppend s.dir s.cur (encodeEntry te.2), size := s.size + encLen te.2 } te.1
+  else { s with dir := dirAppend s.dir s.cur (encodeEntry te.2), size := s.size + encLen te.2 }
+
+/-- the WAL directory after `NewWriter` at instant `t0` and the appends `apps` (instant, entry) -/
+def wRun (resNs maxSize t0 : Nat) (apps : List (Nat × Entry)) : WState :=
+  apps.foldl (wAppend resNs maxSize) (wRotate resNs ⟨[], 0, 0⟩ t0)
+
+def namedFiles (resNs maxSize t0 : Nat) (apps : List (Nat × Entry)) : List Bytes :=
+  (wRun resNs maxSize t0 apps).dir.map Prod.snd
+
 /-! ## reader -/
 
 inductive Policy | cont | stop
